@@ -551,7 +551,35 @@ def grid_scan(chk, ps, quick):
                              "equal to 1 has spatial mean %.6g (largest |value| %.6g): the zero frequency is not removed on this grid"
                              % ("sh_" if name == "sh" else "", N, delta, c["r0"], c["L0"], c["l0"], m, top), dict(c, clause="zero-mean"))
                     break
+    # (c) the sub-harmonic screen is linear in its draws for EVERY outer scale, huge and infinite ones included (the Kolmogorov limit
+    #     users ask for with L0 = 1e6 … inf): superposition with dense draws, finiteness, and the sub-harmonics still add power.  The
+    #     zero-frequency coefficient of each sub-grid grows like L0^(11/6); if it is not removed before the waves are summed, the
+    #     low-frequency part is rounded away against it.
     nprng = numpy.random.default_rng(rng.getrandbits(32))
+    for L0 in (1e3, 1e6, 1e9, 1e12, float("inf")):
+        for N in ((8,) if quick else (8, 16)):
+            c = dict(N=N, r0=logu(rng, 0.05, 0.5), delta=logu(rng, 0.02, 0.3), L0=L0, l0=logu(rng, 0.001, 0.02))
+            nd = 2 * N * N + 54
+            g1, g2 = nprng.normal(size=nd), nprng.normal(size=nd)
+            a, b = rng.uniform(-2, 2), rng.uniform(-2, 2)
+            chk.oracle_cases += 1
+            chk.count("oracle:grid-scan:sh-linear:L0=%g" % L0)
+            chk.case(("grid-scan-sh-L0", N, L0))
+            with numpy.errstate(all="ignore"):
+                s1 = numpy.asarray(sh_screen(ps, c, g1)[0], dtype=float)
+                s2 = numpy.asarray(sh_screen(ps, c, g2)[0], dtype=float)
+                s12 = numpy.asarray(sh_screen(ps, c, a * g1 + b * g2)[0], dtype=float)
+                h1 = numpy.asarray(hi_screen(ps, c, g1[:2 * N * N])[0], dtype=float)
+            top = float(max(numpy.abs(s1).max(), numpy.abs(s2).max())) if numpy.isfinite(s1).all() and numpy.isfinite(s2).all() else float("nan")
+            tag = "ft_sh_phase_screen(r0=%.4g, N=%d, delta=%.4g, L0=%g, l0=%.4g)" % (c["r0"], N, c["delta"], L0, c["l0"])
+            if not (numpy.isfinite(s1).all() and numpy.isfinite(s12).all()):
+                chk.fail("finite:sh:large-L0", "%s is not finite" % tag, dict(c, clause="finite"))
+            elif not float(numpy.abs(s12 - (a * s1 + b * s2)).max()) <= 1e-7 * (abs(a) + abs(b)) * top:
+                chk.fail("linear:sh:large-L0", "%s: screen(a·g+b·h) ≠ a·screen(g)+b·screen(h) for dense draws: error %.3g of amplitude %.3g"
+                         % (tag, float(numpy.abs(s12 - (a * s1 + b * s2)).max()), top), dict(c, a=a, b=b, clause="superposition"))
+            elif not float(numpy.abs(s1 - h1).max()) > 1e-6 * float(numpy.abs(h1).max()):
+                chk.fail("sh:adds-power:large-L0", "%s equals the plain FFT screen for the same draws: the sub-harmonic part vanished" % tag,
+                         dict(c, clause="adds-power"))
     for N, delta, l0px in ((64, 0.1, 50.0), (32, 0.1, 50.0), (128, 0.05, 50.0), (48, 0.02, 70.0), (64, 0.1, 45.0), (40, 0.3, 60.0)):
         if quick and N > 64:
             continue
